@@ -12,6 +12,10 @@ cached or reconfigured whatever it needs. Shape x depth ladder:
            of a document must not depend on the state of the process that writes them)
 
 id: "deep:<shape>:<depth>".
+
+Further families (described at their builders below): "midfail:<kind>" archives that fail after they were opened and listed,
+"drawobj:<container>:<object>" drawing objects (with / without svg:title, svg:desc) anchored in the running text of an
+OpenDocument paragraph, "encpdf:<form>" one PDF under every form of the standard security handler.
 """
 from __future__ import annotations
 
@@ -105,10 +109,16 @@ def build(shape: str, depth: str) -> bytes:
 
 
 def load(doc: str):
-    """"deep:<shape>:<depth>" | "midfail:<kind>" -> (bytes, path argument)"""
+    """"deep:<shape>:<depth>" | "midfail:<kind>" | "drawobj:<container>:<object>" | "encpdf:<form>" -> (bytes, path argument)"""
     if doc.startswith("midfail:"):
         kind = doc.split(":")[1]
         return build_midfail(kind), MIDFAIL_NAMES[kind]
+    if doc.startswith("drawobj:"):
+        _, container, obj = doc.split(":")
+        return build_drawobj(container, obj), f"drawobj/{obj}.{container}"
+    if doc.startswith("encpdf:"):
+        form = doc.split(":")[1]
+        return build_encpdf(form), f"encpdf/{form}.pdf"
     _, shape, depth = doc.split(":")
     return build(shape, depth), NAMES[shape]
 
@@ -207,3 +217,92 @@ def midfail_family(tier: str) -> list:
     if tier == "quick":
         return ["midfail:7z-lzma-solid", "midfail:7z-lzma2-solid", "midfail:7z-lzma2-two", "midfail:zip-deflate"]
     return ["midfail:" + k for k in MIDFAIL]
+
+
+# ----------------------------------------------------------------------------------------------------------------------
+# drawing objects anchored in running text ("drawobj:<container>:<object>")
+#
+# One paragraph of an OpenDocument package (text document, presentation text box, spreadsheet cell, drawing text box) holds,
+# between two words, ONE drawing object with svg:title, svg:desc and a paragraph of its own. The extractors walk such a
+# paragraph with per-format, module-level configuration (tag sets that say what belongs to the running text); what the
+# walk of ONE object kind does to that configuration shows in the text of the NEXT document with ANOTHER object kind.
+#   containers  odt | odp | ods | odg
+#   objects     frame-box   draw:frame > draw:text-box > text:p, svg:title + svg:desc behind it (schema order)
+#               frame-bare  the same frame without title / desc
+#               rect | ellipse | cshape (draw:custom-shape + enhanced geometry) | group (draw:g > draw:rect): svg:title + svg:desc
+#               first, then text:p
+#               rect-bare   draw:rect without title / desc
+# Every word is distinct, so any part that goes missing or moves shows in the digest.
+# ----------------------------------------------------------------------------------------------------------------------
+DRAWOBJ_CONTAINERS = ("odt", "odp", "ods", "odg")
+DRAWOBJ_OBJECTS = ("frame-box", "frame-bare", "rect", "rect-bare", "ellipse", "cshape", "group")
+_GEOM = 'svg:width="3cm" svg:height="1cm" svg:x="1cm" svg:y="1cm"'
+_TD = "<svg:title>Wbcdfg</svg:title><svg:desc>Xcdfgh</svg:desc>"
+_INNER = "<text:p>Ydfghj</text:p>"
+
+
+def _drawobj_xml(obj: str, anchor: str) -> str:
+    if obj in ("frame-box", "frame-bare"):
+        return (f'<draw:frame draw:name="Fr1" {anchor}{_GEOM}><draw:text-box>{_INNER}</draw:text-box>'
+                f'{_TD if obj == "frame-box" else ""}</draw:frame>')
+    if obj in ("rect", "rect-bare"):
+        return f'<draw:rect draw:name="Sh1" {anchor}{_GEOM}>{_TD if obj == "rect" else ""}{_INNER}</draw:rect>'
+    if obj == "ellipse":
+        return f'<draw:ellipse draw:name="Sh1" {anchor}{_GEOM}>{_TD}{_INNER}</draw:ellipse>'
+    if obj == "cshape":
+        return (f'<draw:custom-shape draw:name="Sh1" {anchor}{_GEOM}>{_TD}{_INNER}<draw:enhanced-geometry svg:viewBox="0 0 21600 21600" '
+                f'draw:type="rectangle" draw:enhanced-path="M 0 0 L 21600 0 21600 21600 0 21600 0 0 Z N"/></draw:custom-shape>')
+    if obj == "group":
+        return f'<draw:g draw:name="Gr1" {anchor}>{_TD}<draw:rect draw:name="Sh1" {_GEOM}>{_INNER}</draw:rect></draw:g>'
+    raise KeyError(obj)
+
+
+def build_drawobj(container: str, obj: str) -> bytes:
+    from verif.gen import odf
+    body = ["doc", {"title": "Tt"}, [["unit", [["p", [["t", TOKEN]]]], {}]]]
+    if container == "ods":
+        zb = odf.ods(["doc", {}, [["sheet", "Nbcdfg", [[["s", TOKEN], ["i", 5]]]]]])
+    else:
+        zb = {"odt": odf.odt, "odp": odf.odp, "odg": odf.odg}[container](body)
+    anchor = 'text:anchor-type="as-char" ' if container == "odt" else ""
+    return _nest(zb, "content.xml", TOKEN, "Zfghjk " + _drawobj_xml(obj, anchor) + " ", "", 1)      # Zfghjk <object> TOKEN
+
+
+def drawobj_family(tier: str) -> list:
+    if tier == "quick":
+        return [f"drawobj:{c}:{o}" for c in ("odt", "odp", "ods") for o in ("frame-box", "rect")] + ["drawobj:odt:cshape"]
+    return [f"drawobj:{c}:{o}" for c in DRAWOBJ_CONTAINERS for o in DRAWOBJ_OBJECTS]
+
+
+# ----------------------------------------------------------------------------------------------------------------------
+# encrypted PDFs, one per form of the standard security handler ("encpdf:<form>")
+#
+# The same two-paragraph document under every encryption form verif.gen.pdfw writes (deterministic, AES from verif.ref.aes,
+# nothing of pypdf or of the library is used for writing). The forms differ in WHICH third-party machinery a reader needs
+# and WHEN it needs it (password check vs. string / stream decryption), i.e. in what a reader has to have set up - or may
+# find already set up by an earlier document.
+#   rc4-40   /V 1 /R 2            rc4-128  /V 2 /R 3         cf-v2    /V 4 crypt filter /CFM /V2 (RC4)
+#   aesv2    /V 4 /CFM /AESV2 (AES-128-CBC: password check is RC4/MD5, AES only for strings and streams)
+#   aesv3    /V 5 /R 5 /CFM /AESV3 (AES-256: AES already in the password check)
+#   <form>-pw   the same with a non-empty user password (the reader has to refuse: aesv2-pw, aesv3-pw, rc4-128-pw)
+# ----------------------------------------------------------------------------------------------------------------------
+ENCPDF_FORMS = ("rc4-40", "rc4-128", "cf-v2", "aesv2", "aesv3", "rc4-128-pw", "aesv2-pw", "aesv3-pw")
+
+
+def build_encpdf(form: str) -> bytes:
+    from verif.gen import pdfw
+    pw = form.endswith("-pw")
+    base = form[:-3] if pw else form
+    enc = {"user": "Verif-user" if pw else "", "owner": "Verif-owner", "algorithm": "RC4-40" if base == "rc4-40" else "RC4-128"}
+    if base in ("cf-v2", "aesv2", "aesv3"):
+        enc["crypt_filter"] = {"name": "StdCF", "cfm": {"cf-v2": "V2", "aesv2": "AESV2", "aesv3": "AESV3"}[base]}
+    elif base not in ("rc4-40", "rc4-128"):
+        raise KeyError(form)
+    doc = ["doc", {"title": "Tt"}, [["unit", [["p", [["t", TOKEN]]], ["p", [["t", "Cdfghj"]]]], {}]]]
+    return pdfw.pdf(doc, opts={"encrypt": enc})
+
+
+def encpdf_family(tier: str) -> list:
+    if tier == "quick":
+        return ["encpdf:rc4-128", "encpdf:aesv2", "encpdf:aesv3", "encpdf:aesv2-pw"]
+    return ["encpdf:" + f for f in ENCPDF_FORMS]
